@@ -33,7 +33,6 @@ func (b *Body) appendItem(c nodeContent) *node {
 
 func (b *Body) appendItemNode(nn *node) *node {
 	nn.assertUnattached()
-	b.terminateLastLine()
 	b.children.AppendNode(nn)
 	b.items.Add(nn)
 	return nn
@@ -42,6 +41,8 @@ func (b *Body) appendItemNode(nn *node) *node {
 // terminateLastLine makes sure that whatever the body already contains ends
 // with a newline, so that an item appended next starts on a line of its own.
 // Content parsed from source can lack the final newline, if the source did.
+// Only the editing methods call this: the parser (appendItemNode) must
+// reproduce the tokens it was given exactly.
 func (b *Body) terminateLastLine() {
 	for n := b.children.last; n != nil; n = n.before {
 		toks := n.BuildTokens(nil)
